@@ -61,7 +61,9 @@ Record sth := {
   sh_session : Z;
   sh_spec_session : list (Z * Z);   (* id -> session in which it was (last) added *)
   sh_crashed : bool; sh_corrupt : bool;
-  sh_i : Z; sh_weak : Z; sh_found : list Z }.
+  sh_i : Z; sh_weak : Z; sh_found : list Z;
+  sh_maxid : Z;                 (* the largest segment identifier ever seen, in a directory listing or registered *)
+  sh_prev : list Z }.           (* the identifiers known at the last look (listing or registered list) *)
 
 Definition est_size (hasvec : bool) (v : vec) (textlen : Z) (fields : list (str * mvalue)) : Z :=
   (if hasvec then Z.of_nat (length v) * 4 else 0) + textlen * 2 + Z.of_nat (length fields) * 96 + 64.
@@ -135,7 +137,7 @@ Definition spec_ok (h : sth) (rq : hyrequest) (weak : bool) (out : list (Z * Z))
 Definition upd_model (h : sth) (m : store) : sth :=
   {| sh_model := m; sh_spec := sh_spec h; sh_durable := sh_durable h; sh_added := sh_added h; sh_known := sh_known h;
      sh_cfg := sh_cfg h; sh_session := sh_session h; sh_spec_session := sh_spec_session h; sh_crashed := sh_crashed h; sh_corrupt := sh_corrupt h;
-     sh_i := sh_i h + 1; sh_weak := sh_weak h; sh_found := sh_found h |}.
+     sh_i := sh_i h + 1; sh_weak := sh_weak h; sh_found := sh_found h; sh_maxid := sh_maxid h; sh_prev := sh_prev h |}.
 
 Definition remember_segs (h : sth) (m : store) : list (Z * segment) :=
   fold_left (fun acc g => if existsb (fun x => fst x =? sg_id g) acc then acc else acc ++ [(sg_id g, g)])
@@ -154,7 +156,7 @@ Definition ststep (h : sth) (o : stop) : sth + list Z :=
           inl {| sh_model := s'; sh_spec := fst (hy_add (sh_spec h) id vo toks fields); sh_durable := sh_durable h;
                  sh_added := id :: sh_added h; sh_known := sh_known h; sh_cfg := sh_cfg h; sh_session := sh_session h;
                  sh_spec_session := (id, sh_session h) :: sh_spec_session h; sh_crashed := sh_crashed h; sh_corrupt := sh_corrupt h;
-                 sh_i := sh_i h + 1; sh_weak := sh_weak h; sh_found := sh_found h |}
+                 sh_i := sh_i h + 1; sh_weak := sh_weak h; sh_found := sh_found h; sh_maxid := sh_maxid h; sh_prev := sh_prev h |}
         else inl h1
       else errmis e err
   | SRemove id err =>
@@ -164,7 +166,7 @@ Definition ststep (h : sth) (o : stop) : sth + list Z :=
           inl {| sh_model := s'; sh_spec := fst (hy_remove (sh_spec h) id); sh_durable := sh_durable h;
                  sh_added := sh_added h; sh_known := sh_known h; sh_cfg := sh_cfg h; sh_session := sh_session h;
                  sh_spec_session := sh_spec_session h; sh_crashed := sh_crashed h; sh_corrupt := sh_corrupt h;
-                 sh_i := sh_i h + 1; sh_weak := sh_weak h; sh_found := sh_found h |}
+                 sh_i := sh_i h + 1; sh_weak := sh_weak h; sh_found := sh_found h; sh_maxid := sh_maxid h; sh_prev := sh_prev h |}
         else
           (* a Remove that fails although the document is live in the specification (it sits in a
              frozen or flushed memtable) is finding 3 *)
@@ -172,7 +174,7 @@ Definition ststep (h : sth) (o : stop) : sth + list Z :=
           | Some _ => inl {| sh_model := s'; sh_spec := sh_spec h; sh_durable := sh_durable h; sh_added := sh_added h;
                              sh_known := sh_known h; sh_cfg := sh_cfg h; sh_session := sh_session h;
                              sh_spec_session := sh_spec_session h; sh_crashed := sh_crashed h; sh_corrupt := sh_corrupt h;
-                             sh_i := sh_i h + 1; sh_weak := sh_weak h; sh_found := if memz 3 (sh_found h) then sh_found h else 3 :: sh_found h |}
+                             sh_i := sh_i h + 1; sh_weak := sh_weak h; sh_found := if memz 3 (sh_found h) then sh_found h else 3 :: sh_found h; sh_maxid := sh_maxid h; sh_prev := sh_prev h |}
           | None => inl (upd_model h s')
           end
       else errmis e err
@@ -183,7 +185,7 @@ Definition ststep (h : sth) (o : stop) : sth + list Z :=
                sh_durable := if e =? 0 then sh_spec h else sh_durable h;
                sh_added := sh_added h; sh_known := remember_segs h s'; sh_cfg := sh_cfg h; sh_session := sh_session h;
                sh_spec_session := sh_spec_session h; sh_crashed := sh_crashed h; sh_corrupt := sh_corrupt h;
-               sh_i := sh_i h + 1; sh_weak := sh_weak h; sh_found := sh_found h |}
+               sh_i := sh_i h + 1; sh_weak := sh_weak h; sh_found := sh_found h; sh_maxid := sh_maxid h; sh_prev := sh_prev h |}
       else errmis e err
   | SClose err =>
       let '(s', e) := st_close s in
@@ -192,7 +194,7 @@ Definition ststep (h : sth) (o : stop) : sth + list Z :=
                sh_durable := if e =? 0 then sh_spec h else sh_durable h;
                sh_added := sh_added h; sh_known := remember_segs h s'; sh_cfg := sh_cfg h; sh_session := sh_session h;
                sh_spec_session := sh_spec_session h; sh_crashed := sh_crashed h; sh_corrupt := sh_corrupt h;
-               sh_i := sh_i h + 1; sh_weak := sh_weak h; sh_found := sh_found h |}
+               sh_i := sh_i h + 1; sh_weak := sh_weak h; sh_found := sh_found h; sh_maxid := sh_maxid h; sh_prev := sh_prev h |}
       else errmis e err
   | SRotate => inl (upd_model h (rotate s))
   | SEvict => inl (upd_model h (st_evict s))
@@ -202,7 +204,7 @@ Definition ststep (h : sth) (o : stop) : sth + list Z :=
         inl {| sh_model := s'; sh_spec := sh_spec h; sh_durable := sh_durable h; sh_added := sh_added h;
                sh_known := remember_segs h s'; sh_cfg := sh_cfg h; sh_session := sh_session h;
                sh_spec_session := sh_spec_session h; sh_crashed := sh_crashed h; sh_corrupt := sh_corrupt h;
-               sh_i := sh_i h + 1; sh_weak := sh_weak h; sh_found := sh_found h |}
+               sh_i := sh_i h + 1; sh_weak := sh_weak h; sh_found := sh_found h; sh_maxid := sh_maxid h; sh_prev := sh_prev h |}
       else errmis e err
   | SReopen crash listing err =>
       let '(p, (hv, ht, hm), (limit, cthr)) := sh_cfg h in
@@ -219,7 +221,8 @@ Definition ststep (h : sth) (o : stop) : sth + list Z :=
                sh_spec := sh_spec h; sh_durable := sh_durable h; sh_added := sh_added h; sh_known := sh_known h;
                sh_cfg := sh_cfg h; sh_session := sh_session h + 1; sh_spec_session := sh_spec_session h;
                sh_crashed := sh_crashed h || negb (crash =? 0); sh_corrupt := sh_corrupt h || (crash =? 2);
-               sh_i := sh_i h + 1; sh_weak := sh_weak h; sh_found := sh_found h |}
+               sh_i := sh_i h + 1; sh_weak := sh_weak h; sh_found := sh_found h;
+               sh_maxid := fold_left Z.max (map fst listing) (sh_maxid h); sh_prev := map fst listing ++ sh_prev h |}
   | SInFlight compact =>
       (* the operation during which the process dies: run it in the model only to learn what the
          segment files would contain; nothing it does counts as completed *)
@@ -227,7 +230,7 @@ Definition ststep (h : sth) (o : stop) : sth + list Z :=
       inl {| sh_model := s'; sh_spec := sh_spec h; sh_durable := sh_durable h; sh_added := sh_added h;
              sh_known := remember_segs h s'; sh_cfg := sh_cfg h; sh_session := sh_session h;
              sh_spec_session := sh_spec_session h; sh_crashed := sh_crashed h; sh_corrupt := sh_corrupt h;
-             sh_i := sh_i h + 1; sh_weak := sh_weak h; sh_found := sh_found h |}
+             sh_i := sh_i h + 1; sh_weak := sh_weak h; sh_found := sh_found h; sh_maxid := sh_maxid h; sh_prev := sh_prev h |}
   | SFlushFail err =>
       (* the failing Flush reports its failure; nothing becomes durable by it *)
       let '(s', e) := st_flush_fail s in
@@ -248,6 +251,19 @@ Definition ststep (h : sth) (o : stop) : sth + list Z :=
       if 0 <? lost then inr (v_violation [sh_i h; -13; lost]) else inl (upd_model h s)
   | SObserve segs nmem =>
       let ms := map (fun g => (sg_id g, if sg_cached g then 1 else 0)) (s_segs s) in
+      (* "its identifier is not reused": a registered identifier that was not known at the last look is a
+         new segment's, and must lie above every identifier ever seen in this directory -- in a listing
+         (files of partial segments included) or registered -- whatever has been deleted since *)
+      let ids := map fst segs in
+      let fresh := filter (fun i => negb (memz i (sh_prev h))) ids in
+      let sh_maxid_before := sh_maxid h in
+      let h := {| sh_model := sh_model h; sh_spec := sh_spec h; sh_durable := sh_durable h; sh_added := sh_added h;
+                  sh_known := sh_known h; sh_cfg := sh_cfg h; sh_session := sh_session h;
+                  sh_spec_session := sh_spec_session h; sh_crashed := sh_crashed h; sh_corrupt := sh_corrupt h;
+                  sh_i := sh_i h; sh_weak := sh_weak h; sh_found := sh_found h;
+                  sh_maxid := fold_left Z.max ids (sh_maxid h); sh_prev := ids ++ sh_prev h |} in
+      if negb (forallb (fun i => sh_maxid_before <? i) fresh) then inr (v_violation [sh_i h; -16])
+      else
       if plist_eqb ms segs && (nmem =? Z.of_nat (length (s_queue s))) then inl (upd_model h s)
       else
         (* the property's own demand on the segment list: no identifier is carried by two live
@@ -261,7 +277,10 @@ Definition ststep (h : sth) (o : stop) : sth + list Z :=
         let cached_ok := forallb (fun ic => (snd ic =? 0) ||
                                            match find (fun g => sg_id g =? fst ic) (s_segs s) with
                                            | Some g => loadable g | None => true end) segs in
-        inr (verdict false (nodupz (map fst segs) && cached_ok) (sh_i h :: -10 :: flatten_pairs ms))
+        (* ... and every segment whose files are all there and readable is registered: a store that opens
+           (or carries on) without one of them has lost what that segment holds *)
+        let registered_ok := forallb (fun g => negb (loadable g) || memz (sg_id g) (map fst segs)) (s_segs s) in
+        inr (verdict false (nodupz (map fst segs) && cached_ok && registered_ok) (sh_i h :: -10 :: flatten_pairs ms))
   | SSearch rq err out =>
       let out := canon64_pairs out in
       match st_search s rq with
@@ -278,7 +297,7 @@ Definition ststep (h : sth) (o : stop) : sth + list Z :=
                 inl {| sh_model := s'; sh_spec := sh_spec h; sh_durable := sh_durable h; sh_added := sh_added h;
                        sh_known := sh_known h; sh_cfg := sh_cfg h; sh_session := sh_session h;
                        sh_spec_session := sh_spec_session h; sh_crashed := sh_crashed h; sh_corrupt := sh_corrupt h;
-                       sh_i := sh_i h + 1; sh_weak := sh_weak h + (if so_weak o then 1 else 0); sh_found := sh_found h |}
+                       sh_i := sh_i h + 1; sh_weak := sh_weak h + (if so_weak o then 1 else 0); sh_found := sh_found h; sh_maxid := sh_maxid h; sh_prev := sh_prev h |}
               else
                 (* implementation = faithful model, and the specification is violated: a listed
                    mechanism.  1 = lost inside a session (shared templates overwritten by a segment
@@ -293,7 +312,7 @@ Definition ststep (h : sth) (o : stop) : sth + list Z :=
                        sh_known := sh_known h; sh_cfg := sh_cfg h; sh_session := sh_session h;
                        sh_spec_session := sh_spec_session h; sh_crashed := sh_crashed h; sh_corrupt := sh_corrupt h;
                        sh_i := sh_i h + 1; sh_weak := sh_weak h;
-                       sh_found := if memz code (sh_found h) then sh_found h else code :: sh_found h |}
+                       sh_found := if memz code (sh_found h) then sh_found h else code :: sh_found h; sh_maxid := sh_maxid h; sh_prev := sh_prev h |}
             else inr (verdict false sok (sh_i h :: 0 :: flatten_pairs (firstn (so_n o) (so_merged o))))
       end
   end.
@@ -316,7 +335,7 @@ Definition chk_storehist : P (list Z) :=
                   hy_meta := if hm then Some minit else None; hy_info := [] |} in
   ret (strun {| sh_model := open_store p hv ht hm limit cthr [] 0; sh_spec := spec0; sh_durable := spec0;
                 sh_added := []; sh_known := []; sh_cfg := (p, (hv, ht, hm), (limit, cthr)); sh_session := 1;
-                sh_spec_session := []; sh_crashed := false; sh_corrupt := false; sh_i := 0; sh_weak := 0; sh_found := [] |} ops).
+                sh_spec_session := []; sh_crashed := false; sh_corrupt := false; sh_i := 0; sh_weak := 0; sh_found := []; sh_maxid := 0; sh_prev := [] |} ops).
 
 (** 801: the persistent store over an HNSW vector template (HNSW's exact regime) against the store over
     a flat template: same directory-level history (adds, rotations, flushes, close / reopen with fresh
